@@ -20,7 +20,7 @@ func init() {
 			"random arrays up to length 12 with lists up to 4 and bounds to +-2^31. Oracle: slice arithmetic written in the harness. Non-trivial: array length >= 1; distinct by (array, subscript list, mode, silent)",
 		Run:          runC14,
 		Replay:       replayC14,
-		MinExercised: map[string]int64{"single": 5000, "range": 20000, "list": 20000, "last": 5000, "lax.clip": 5000, "lax.wrap": 500, "strict.bounds": 5000, "strict.below-any": 200, "subscript.current": 2000, "last.scope": 100, "badsubscript": 200},
+		MinExercised: map[string]int64{"single": 5000, "range": 20000, "list": 20000, "last": 5000, "lax.clip": 5000, "lax.wrap": 500, "strict.bounds": 5000, "strict.below-any": 200, "subscript.current": 2000, "exists-agrees": 5000, "last.scope": 100, "badsubscript": 200},
 		Assumptions:  []string{"positions are trunc(e) toward zero; ranges inclusive; last = n-1 of the innermost subscripted array"},
 	})
 }
@@ -168,6 +168,18 @@ func checkSubscripts(c *h.Ctx, docText string, isArray bool, elems []string, sub
 		if o.Class == h.Panic || o.Class == h.Invalid {
 			c.Skip(clause, "panic-or-invalid-is-C05")
 			continue
+		}
+		// the same subscript asked only for existence (Exists, and exists() in
+		// a filter on a wrapper) agrees with what Query selects
+		if !silent {
+			oe := h.Call("exists", p, h.Decode(docText, useNum), h.Opts{})
+			c.Eval(1)
+			agree := oe.Class == o.Class && (o.Class != h.OK || oe.Bool == (len(o.Items) > 0))
+			if !agree {
+				c.Violate("exists-agrees", h.F("mode", modeName(lax), "query", o.Class, "exists", oe.Class), fmt.Sprintf("Query(%s) on %s = %s but Exists = %s", ptxt, docText, o.Summary(), oe.Summary()), cs)
+			} else {
+				c.Held("exists-agrees")
+			}
 		}
 		expErr := wrapErr || !okBounds
 		wantItems := want
@@ -665,8 +677,10 @@ func runC14(c *h.Ctx) {
 		}
 	}
 	// bad subscripts: not a single number within int32 range -> error in both modes
-	bad := []string{`"a"`, "true", "null", "$.nokey", "$[*]", "$", "2147483648", "-2147483649", "1e10", "$.a", "(1, 2)", `"1"`, "$[0 to 1]", "9223372036854775807", "$ ? (@ == 99)"}
-	docs := []string{`[1,2,3]`, `[[1,2],3]`, `[]`, `[null]`, `{"a":"x"}`}
+	bad := []string{`"a"`, "true", "null", "$.nokey", "$[*]", "$", "2147483648", "-2147483649", "1e10", "$.a", "(1, 2)", `"1"`, "$[0 to 1]", "9223372036854775807", "$ ? (@ == 99)",
+		// an array holding one number is not a number (no unwrapping of the subscript's value)
+		"$one", "$[last].one", "$two", "$none", "$nested"}
+	docs := []string{`[1,2,3]`, `[[1,2],3]`, `[]`, `[null]`, `{"a":"x"}`, `[1,2,{"one":[1]}]`}
 	for _, b := range bad {
 		for _, d := range docs {
 			for _, lax := range []bool{true, false} {
@@ -683,9 +697,12 @@ func runC14(c *h.Ctx) {
 					if p == nil {
 						continue
 					}
-					o := h.Call("query", p, h.Decode(d, false), h.Opts{})
+					o := h.Call("query", p, h.Decode(d, false), h.Opts{Vars: map[string]any{"one": []any{1.0}, "two": []any{0.0, 1.0}, "none": []any{}, "nested": []any{[]any{0.0}}}})
 					c.Eval(1)
 					cs := h.Case{Kind: "badsubscript", Path: ptxt, Doc: d}
+					if b == "$[last].one" && d != `[1,2,{"one":[1]}]` {
+						continue
+					}
 					// strict + non-array document: the array-accessor error comes first (also suppressible)
 					if o.Class == h.Soft {
 						c.Held("badsubscript")
